@@ -1,5 +1,6 @@
 mod c06;
 mod c10;
+mod c14;
 mod c15;
 mod c16;
 mod c17;
@@ -90,6 +91,15 @@ fn check(prop: &str, tier: &str) -> i32 {
             c10::run(tier, &mut r);
             r.finish()
         }
+        "C14" => {
+            let mut r = Report::new(prop, tier, "model_checking");
+            r.assumptions = vec![
+                "histories, resume modes and burst compositions are enumerated; the interleaving of a burst with the busy handler is the OS's (fallback stated in DESIGN.md §10): the schedule dimension of the stream the handler consumes is decided exhaustively by C03, the start-up race by C16".into(),
+                "nushell is explored through".into(),
+            ];
+            c14::run(tier, &mut r);
+            r.finish()
+        }
         "C15" => {
             let mut r = Report::new(prop, tier, "model_checking");
             r.assumptions = vec![
@@ -178,6 +188,7 @@ fn main() {
                 "e6" => e6::worker(),
                 "c06" => c06::worker(),
                 "c15" => c15::worker(),
+                "c14" => c14::worker(),
                 "c16" => c16::worker(),
                 "c19" => c19::worker(),
                 "c18" => c18::worker(),
@@ -212,6 +223,7 @@ fn main() {
                     if r.violations.is_empty() { 0 } else { 1 }
                 }
                 "c15" => c15::replay(rp),
+                "c14" => c14::replay(rp),
                 "c16" => c16::replay(rp),
                 "c19" => c19::replay(rp),
                 "c18" => c18::replay(rp),
